@@ -269,10 +269,12 @@ pub fn render_unit(u: &Value, style: u64, rotk: u32) -> String {
         "errq" => match style % 3 { 0 => "SYST:ERR?".into(), 1 => "SYST:ERR:NEXT?".into(), _ => "system:error:next?".into() },
         "countq" => "SYST:ERR:COUN?".into(),
         "allq" => "SYST:ERR:ALL?".into(),
+        "idnq" => if style % 2 == 0 { "*IDN?".into() } else { "*idn?".into() },
+        "versq" => match style % 3 { 0 => "SYST:VERS?".into(), 1 => "SYSTem:VERSion?".into(), _ => "syst:version?".into() },
         "nop" => if style % 2 == 0 { "NOP".into() } else { "DEEP:NOP".into() },
         "nopq" => format!("NOPQ? {}", v),
         "fail" => format!("FAIL {},{}", u["code"], u["ext"]),
-        "bad" => match (u["k"].as_str().unwrap(), style % 3) {
+        "bad" => match (u["k"].as_str().unwrap(), if u["k"] == "form" { style % 8 } else { style % 3 }) {
             ("syntax", 0) => "NOP $".into(),
             ("syntax", 1) => "NOP 1,,2".into(),
             ("syntax", _) => "TU8 'abc".into(),
@@ -291,6 +293,14 @@ pub fn render_unit(u: &Value, style: u64, rotk: u32) -> String {
             ("range", 0) => "TU8 256".into(),
             ("range", 1) => "TU8 -1".into(),
             ("range", _) => "TU8 1e9".into(),
+            ("form", 0) => "*CLS?".into(),
+            ("form", 1) => "*ESR".into(),
+            ("form", 2) => "STAT:PRES?".into(),
+            ("form", 3) => "SYST:ERR:COUN".into(),
+            ("form", 4) => "*RST?".into(),
+            ("form", 5) => "*STB".into(),
+            ("form", 6) => "STAT:OPER:COND".into(),
+            ("form", _) => "*WAI?".into(),
             (k, _) => panic!("kind {k}"),
         },
         _ => panic!("unknown op {op}"),
@@ -344,6 +354,15 @@ fn item_ext(code: i64, text: &[u8]) -> i64 {
 fn decode_unit(op: &str, text: &[u8], rotk: u32) -> Value {
     let toks = split_top(text, b',');
     let bad = json!({"code": -99999, "ext": -1});
+    if op == "idnq" {
+        let want: [&[u8]; 4] = [b"GPA-Robotics", b"T800-101", b"0", b"0"];
+        let n = toks.iter().zip(want.iter()).filter(|(a, b)| a.as_slice() == **b).count();
+        return json!([{"code": if toks.len() == 4 { n as i64 } else { -1 }, "ext": -9}]);
+    }
+    if op == "versq" {
+        let parts: Vec<&[u8]> = text.split(|c| *c == b'.').collect();
+        return Value::Array(parts.iter().map(|p| parse_num(p).map(|n| json!({"code": n, "ext": -9})).unwrap_or(bad.clone())).collect());
+    }
     if op == "errq" || op == "allq" {
         if toks.iter().all(|t| parse_num(t).is_some()) && op == "allq" {
             return Value::Array(toks.iter().map(|t| json!({"code": parse_num(t).unwrap(), "ext": -2})).collect());
@@ -646,7 +665,7 @@ fn gen_unit(
     mk: &dyn Fn(&str, &str, i64, &str, i64, i64) -> Value,
 ) -> Value {
     let c15 = ["evq", "condq", "enab", "enabq", "ptr", "ptrq", "ntr", "ntrq", "pres", "cls", "evq", "ptr", "ntr"];
-    let c16 = ["cls", "ese", "eseq", "esrq", "opc", "opcq", "rst", "wai", "sre", "sreq", "stbq", "stbq", "stbq", "tstq", "enab", "errq", "fail", "evq", "pres"];
+    let c16 = ["idnq", "versq", "cls", "ese", "eseq", "esrq", "opc", "opcq", "rst", "wai", "sre", "sreq", "stbq", "stbq", "stbq", "tstq", "enab", "errq", "fail", "evq", "pres"];
     let c13 = ["fail", "fail", "bad", "bad", "errq", "errq", "countq", "allq", "esrq", "opc", "opcq", "cls", "nop", "nopq", "ese", "stbq"];
     let all: Vec<&str> = c15.iter().chain(c16.iter()).chain(c13.iter()).copied().collect();
     let op = match mix {
@@ -664,7 +683,7 @@ fn gen_unit(
         "evq" | "condq" | "enabq" | "ptrq" | "ntrq" => mk(op, r, 0, "", 0, 0),
         "nopq" => mk(op, "", rng.below(1000) as i64 - 500, "", 0, 0),
         "fail" => mk(op, "", 0, "", *rng.pick(codes), rng.below(3) as i64),
-        "bad" => mk(op, "", 0, *rng.pick(&["syntax", "undef", "p108", "p109", "type", "range"]), 0, 0),
+        "bad" => mk(op, "", 0, *rng.pick(&["syntax", "undef", "p108", "p109", "type", "range", "form"]), 0, 0),
         _ => mk(op, "", 0, "", 0, 0),
     }
 }
